@@ -31,9 +31,20 @@ open Gen
 /-- `AccessRole::allows` (security.rs:44): `self >= required` under the derived `Ord`. -/
 def allows (self required : Role) : Bool := decide (required.rank ≤ self.rank)
 
+/-- White space as far as `str::trim` is modelled (the ASCII part of `char::is_whitespace`). -/
+def isSpace (c : Char) : Bool :=
+  c = ' ' || c = '\t' || c = '\n' || c = '\r' || c = '\x0b' || c = '\x0c'
+
+/-- `str::trim` (ASCII white space; written over `List Char` so that the kernel can evaluate it). -/
+def trimmed (s : String) : String :=
+  String.ofList ((s.toList.dropWhile isSpace).reverse.dropWhile isSpace).reverse
+
+/-- `str::to_ascii_lowercase`. -/
+def lowered (s : String) : String := String.ofList (s.toList.map Char.toLower)
+
 /-- `AccessRole::parse`: `text.trim().to_ascii_lowercase()` looked up in the generated table. -/
 def parseRole (text : String) : Option Role :=
-  let norm := text.trimAscii.toString.toLower
+  let norm := lowered (trimmed text)
   (roleParseTable.find? (fun p => p.1 = norm)).map (·.2)
 
 /-- `sanitize_requested_role` (pairing.rs): default operator, admin is lowered to engineer. -/
@@ -90,7 +101,7 @@ def Pairing.claim (p : Pairing) (now : Nat) (code : String) (requested : Option 
   | none => ({ tokens := ts, pending := none }, false)
   | some (pcode, exp) =>
     if exp < now then ({ tokens := ts, pending := none }, false)
-    else if pcode ≠ code.trimAscii.toString then ({ tokens := ts, pending := some (pcode, exp) }, false)
+    else if pcode ≠ trimmed code then ({ tokens := ts, pending := some (pcode, exp) }, false)
     else if (ts.filter (·.enabled)).length ≥ maxTokens then ({ tokens := ts, pending := none }, false)
     else
       ({ tokens := ts ++ [{ id := "pair-" ++ toString now, token := fresh,
@@ -298,8 +309,6 @@ structure CfgAcc where
   debugMode : Bool
   settingsTouched : Bool
 
-def trimmed (s : String) : String := s.trimAscii.toString
-
 /-- One iteration of `for (key, value) in params`; `none` = `return ControlResponse::error(..)`. -/
 def configSetEntry (acc : CfgAcc) (e : Entry) : Option CfgAcc :=
   if e.key = "control.auth_token" then some acc
@@ -311,16 +320,16 @@ def configSetEntry (acc : CfgAcc) (e : Entry) : Option CfgAcc :=
     match e.val with
     | .str s =>
       if trimmed s = "" then none
-      else if (trimmed s).toLower = "production" then some { acc with debugMode := false }
-      else if (trimmed s).toLower = "debug" then some { acc with debugMode := true }
+      else if lowered (trimmed s) = "production" then some { acc with debugMode := false }
+      else if lowered (trimmed s) = "debug" then some { acc with debugMode := true }
       else none
     | _ => none
   else if e.key = "web.auth" then
     match e.val with
     | .str s =>
       if trimmed s = "" then none
-      else if (trimmed s).toLower = "token" && acc.authToken.isNone then none
-      else if !((trimmed s).toLower = "local" || (trimmed s).toLower = "token") then none
+      else if lowered (trimmed s) = "token" && acc.authToken.isNone then none
+      else if !(lowered (trimmed s) = "local" || lowered (trimmed s) = "token") then none
       else some { acc with settingsTouched := true }
     | _ => none
   else if e.key = "mesh.auth_token" then
@@ -504,5 +513,30 @@ def run (ep : Endpoint) : List Event → Endpoint × List Out
 
 /-- The role a credential maps to (pure part of `resolveRole`). -/
 def credentialRole (ep : Endpoint) (auth : Option String) : Option Role := (resolveRole ep auth).2
+
+/-- Hand-written classification of the config.set keys: `some true` = the key holds a credential or
+selects how clients authenticate / which control mode applies (changing it is an administrator's
+business), `some false` = ordinary engineering configuration, `none` = unclassified. -/
+def sensitiveKey : String → Option Bool
+  | "control.auth_token" | "mesh.auth_token" | "control.mode" | "web.auth" => some true
+  | "log.level" | "watchdog.enabled" | "watchdog.timeout_ms" | "watchdog.action" | "fault.policy"
+  | "retain.save_interval_ms" | "retain.mode" | "web.enabled" | "web.listen" | "web.tls"
+  | "discovery.enabled" | "discovery.service_name" | "discovery.advertise" | "discovery.interfaces"
+  | "mesh.enabled" | "mesh.listen" | "mesh.tls" | "mesh.publish" | "mesh.subscribe"
+  | "control.debug_enabled" => some false
+  | _ => none
+
+/-- Modules of `control/handlers/` whose requests are the debugger's ("debug-class"). -/
+def debugModules : List String := ["debug", "variables"]
+
+/-- Names dispatched by the debug-class modules. -/
+def debugClass : List String :=
+  (dispatchModules.filter (fun m => debugModules.contains m.1)).flatMap (fun m => m.2.map (·.name))
+
+/-- Total clock advance of a history. -/
+def ticks : List Event → Nat
+  | [] => 0
+  | .tick dt :: es => dt + ticks es
+  | .line _ :: es => ticks es
 
 end TrustVerif.C18
